@@ -298,6 +298,39 @@ def _exercise_anchor_files(pid, program, chk):
     chk.facts["O0.1 functions of the anchor files interpreted for unbound reads"] = n
 
 
+_NORMALISE_CONTROL = """
+class A:
+    def _rel(self, xs):
+        for x in xs:
+            %s
+    def go(self, k):
+        self._rel((k,))
+        self._rel(c for c in list(self.h) if c.d <= 0)
+        self._rel([k, k])
+"""
+
+
+def _normalise_control():
+    """the bulk-helper normalisation (sa/normalise.py) splits exactly the pattern it is documented for"""
+    import ast as _ast
+
+    from sa.normalise import normalise_module
+
+    def run(body):
+        tree = _ast.parse(_NORMALISE_CONTROL % body)
+        return normalise_module(tree), _ast.unparse(tree)
+
+    done, out = run("x.d = 0")
+    want = ["def _rel__each(self, x):", "self._rel__each(k)", "for c in list(self.h):", "if c.d <= 0:", "self._rel__each(c)", "self._rel([k, k])"]
+    if done != ["A._rel"] or not all(w in out for w in want):
+        return False
+    # bodies that would leave the loop, yield, use the collection or re-bind the element are left alone
+    for body in ("return x", "continue", "yield x", "xs.append(x)", "x = 1"):
+        if run(body)[0]:
+            return False
+    return True
+
+
 def run_property(pid, tier, seed, repo, replay=None):
     started = time.time()
     try:
@@ -322,6 +355,11 @@ def run_property(pid, tier, seed, repo, replay=None):
         print("ANALYSIS-ERROR property=%s the unbound-local tracker (O0.1) does not behave as expected on its control example" % pid)
         return 2
     interp.UNBOUND_READS.clear()
+    if not _normalise_control():
+        print("ANALYSIS-ERROR property=%s the bulk-helper normalisation (sa/normalise.py) does not behave as expected on its control example" % pid)
+        return 2
+    if any(m.normalised for m in program.modules.values()):
+        chk.notes.append("bulk helpers read in their per-element form (sa/normalise.py): %s" % sorted(h for m in program.modules.values() for h in m.normalised))
     try:
         mod.run(chk)
         if tier == "thorough" and hasattr(mod, "run_thorough"):
@@ -398,7 +436,14 @@ def main():
         if pid not in ALL:
             print("ANALYSIS-ERROR unknown property %s" % pid)
             return 2
-        code = run_property(pid, args.tier, seed, args.repo, args.replay)
+        try:
+            code = run_property(pid, args.tier, seed, args.repo, args.replay)
+        except Exception:  # a crash of the checker is never a verdict about the code
+            import traceback
+
+            traceback.print_exc()
+            print("ANALYSIS-ERROR property=%s internal error in the checker outside a rule (see traceback)" % pid)
+            code = 2
         worst = max(worst, code) if 1 not in (worst, code) else 1
     return worst
 
